@@ -393,5 +393,5 @@ Proof.
       inversion H; subst s'; clear H.
     all: apply (ShHandler s _ f fn g); try assumption;
       unfold dec_gen, closed_gen; rewrite ?Ec; cbn [g_routines g_closed g_done g_joined g_mid g_pub];
-      rewrite ?Er, ?Ed, ?Ej; cbn; try reflexivity.
+      rewrite ?Er, ?Ed, ?Ej; cbn; try reflexivity; try assumption.
 Qed.
